@@ -46,6 +46,7 @@ type Engine struct {
 	methodCache sync.Map
 	implCache  sync.Map
 	InitFailures []string
+	refl       *reflectEnv
 }
 
 type deferred struct {
@@ -617,6 +618,14 @@ func (ex *Exec) prepareCall(fr *frame, call *ssa.CallCommon) (fn Value, args []V
 		if recv.t == nil {
 			ex.rtPanic("invalid memory address or nil pointer dereference (method on nil interface)")
 		}
+		if rt, ok := recv.v.(RTypeV); ok {
+			// reflect.Type method on the go/types-backed environment model
+			args = make([]Value, 0, len(call.Args))
+			for _, a := range call.Args {
+				args = append(args, fr.get(a))
+			}
+			return &rtypeBound{rt: rt, marker: recv.t, name: call.Method.Name()}, args
+		}
 		f := ex.eng.lookupMethod(recv.t, call.Method)
 		if f == nil {
 			panic(Unsupported{fmt.Sprintf("no method %s for dynamic type %v", call.Method.Name(), recv.t)})
@@ -659,6 +668,8 @@ func (ex *Exec) call(caller *frame, fn Value, args []Value) Value {
 		return ex.callBuiltin(caller, fn, args)
 	case FuncNil:
 		ex.rtPanic("call of nil function")
+	case *rtypeBound:
+		return ex.rtypeMethod(fn.rt, fn.marker, fn.name, args)
 	case Opaque:
 		if ex.eng.inInit {
 			return Opaque{"call of opaque"}
@@ -687,6 +698,13 @@ func (ex *Exec) callFunc(caller *frame, fn *ssa.Function, args []Value, env []Va
 				return in(ex, caller, fn, args)
 			}
 		}
+		if fn.Pkg != nil && !eng.inInit {
+			if pp := fn.Pkg.Pkg.Path(); pp == "reflect" || pp == "internal/reflectlite" {
+				if !reflectPure[fn.Name()] {
+					panic(Unsupported{"reflect operation not modelled: " + name})
+				}
+			}
+		}
 		if st, ok := eng.stubs[name]; ok && !ex.inStub[name] {
 			return ex.callSSA(caller, st, args, nil)
 		}
@@ -706,6 +724,12 @@ func (ex *Exec) callFunc(caller *frame, fn *ssa.Function, args []Value, env []Va
 		panic(Unsupported{"no code for function: " + name})
 	}
 	return ex.callSSA(caller, fn, args, env)
+}
+
+type rtypeBound struct {
+	rt     RTypeV
+	marker types.Type
+	name   string
 }
 
 func opaqueResult(fn *ssa.Function) Value {
@@ -748,3 +772,6 @@ func (ex *Exec) visitInstrInit(fr *frame, instr ssa.Instruction) (ret bool) {
 	}()
 	return ex.visitInstr(fr, instr)
 }
+
+// reflect functions that are plain Go code over their arguments and may run from source
+var reflectPure = map[string]bool{"Lookup": true, "Get": true, "IsExported": true}
